@@ -448,14 +448,25 @@ def c15_h(run, fx):
         if b.kind == "Closure" or not (b.path.startswith("<cff::Operand as binary::write::WriteBinary") or b.path.startswith("<cff::cff2::StackValue as binary::write::WriteBinary")):
             continue
         n += 1
-        prov = sym.Prov(b)
+        # the writer itself and the private helpers of the cff modules it delegates to (an extracted `write_integer_operand`)
+        group, todo = [b], [b]
+        while todo and len(group) < 6:
+            cur = todo.pop()
+            for _, t in cur.calls():
+                cp = t["callee"].get("path") or ""
+                cb = fx.body(cp) if cp.startswith("cff::") and "WriteBinary" not in cp else None
+                if cb is not None and cb not in group and cb.kind != "Closure":
+                    group.append(cb)
+                    todo.append(cb)
         ks = set()
-        for tb, fb, op, x, y, sw in guards.branch_conditions(b, prov):
-            xs, ys = sym.strip(x), sym.strip(y)
-            if ys[0] == "c" and isinstance(ys[1], int) and not isinstance(ys[1], bool):
-                ks.add((op, ys[1]))
-            if xs[0] == "c" and isinstance(xs[1], int) and not isinstance(xs[1], bool):
-                ks.add((guards.CMP_FLIP[op], xs[1]))
+        for gb in group:
+            gprov = sym.Prov(gb)
+            for tb, fb, op, x, y, sw in guards.branch_conditions(gb, gprov):
+                xs, ys = sym.strip(x), sym.strip(y)
+                if ys[0] == "c" and isinstance(ys[1], int) and not isinstance(ys[1], bool):
+                    ks.add((op, ys[1]))
+                if xs[0] == "c" and isinstance(xs[1], int) and not isinstance(xs[1], bool):
+                    ks.add((guards.CMP_FLIP[op], xs[1]))
         ks = {k for k in ks if k[0] in ("Ge", "Le", "Gt", "Lt")}
         extra = ks - want - opt
         missing = want - ks
